@@ -97,12 +97,16 @@ static Exec execute(cs::Ctx& ctx, bool msgpack, const std::string& bytes, int L,
   uintptr_t base = (uintptr_t)&base_marker;
   DeserializationError err;
   auto nl = DeserializationOption::NestingLimit((uint8_t)L);
+  // L equal to the configured default: the option is left out, so the default itself is exercised
+  const bool dflt = L == ARDUINOJSON_DEFAULT_NESTING_LIMIT;
   if (filter) {
     JsonVariantConst fv = fdoc.as<JsonVariantConst>();
-    err = msgpack ? deserializeMsgPack(doc, reader, DeserializationOption::Filter(fv), nl)
-                  : deserializeJson(doc, reader, DeserializationOption::Filter(fv), nl);
+    if (dflt) err = msgpack ? deserializeMsgPack(doc, reader, DeserializationOption::Filter(fv)) : deserializeJson(doc, reader, DeserializationOption::Filter(fv));
+    else err = msgpack ? deserializeMsgPack(doc, reader, DeserializationOption::Filter(fv), nl)
+                       : deserializeJson(doc, reader, DeserializationOption::Filter(fv), nl);
   } else {
-    err = msgpack ? deserializeMsgPack(doc, reader, nl) : deserializeJson(doc, reader, nl);
+    if (dflt) err = msgpack ? deserializeMsgPack(doc, reader) : deserializeJson(doc, reader);
+    else err = msgpack ? deserializeMsgPack(doc, reader, nl) : deserializeJson(doc, reader, nl);
   }
   ctx.executions++;
   Exec e;
